@@ -342,6 +342,10 @@ def reader_race_stream(chk, binp):
 
 
 def run(chk, replay):
+    if replay and "cache_ops" in json.load(open(replay)).get("case", {}):
+        import x_cache
+        common.lean_obligations(chk, "BdModel/Props/C07.lean", {"Hist": tie_names("Hist")}, extra_props=["BdModel/Props/C07Cache.lean"])
+        x_cache.stream(chk, "C07", json.load(open(replay))["case"]); return
     if replay and "race_case" in json.load(open(replay)).get("case", {}):
         binp, out = common.build_harness("hist")
         reader_race_stream(chk, binp); return
@@ -351,7 +355,7 @@ def run(chk, replay):
         "encoding/json: no proper prefix of a status object parses (reader ignores a torn trailing fragment)"]
     chk.assumptions = ["power loss / fsync ordering is out of scope (the property says: process is killed)",
                        "operations issued AFTER a crash on a file that ends in a torn fragment (e.g. a manual update appended to it) are outside the property's quantifier"]
-    common.lean_obligations(chk, "BdModel/Props/C07.lean", {"Hist": tie_names("Hist")})
+    common.lean_obligations(chk, "BdModel/Props/C07.lean", {"Hist": tie_names("Hist")}, extra_props=["BdModel/Props/C07Cache.lean"])
     binp, out = common.build_harness("hist")
     if not binp:
         chk.oblige("harness-build:hist", False, out[-3000:]); return
@@ -413,7 +417,10 @@ def run(chk, replay):
     chk.disagreements_checked = chk.disagreements
     if dis == 0:
         chk.oblige("correspondence:crash-states (every surviving directory = one of the model's crash states of the operation in flight)", True)
-    chk.stats = stat
+    chk.stats = dict(chk.stats or {}, **stat)
+    if not replay:
+        import x_cache
+        x_cache.stream(chk, "C07")
     if not replay:
         reader_race_stream(chk, binp)
     chk.samples = [{"kind": c["kind"], "victim": c["victim"], "points": [o["point"] for o in allobs.get(c["id"], [])][:12]} for c in cases[:3]]
